@@ -158,8 +158,12 @@ func init() {
 					}
 					all = append(all, "["+strings.Join(parts, "; ")+"]")
 				}
-				fmt.Fprintf(&g.buf, "(* diff.Diff: argument expressions of the four Fprintf calls: %v *)\nDefinition diff_fprintf_args : list (list (list byte)) :=\n  [%s].\n\n",
-					calls, strings.Join(all, ";\n   "))
+				var argNames []string
+				for _, c := range calls {
+					argNames = append(argNames, strings.Join(c.args, ","))
+				}
+				fmt.Fprintf(&g.buf, "(* diff.Diff: argument expressions of the four Fprintf calls: %s *)\nDefinition diff_fprintf_args : list (list (list byte)) :=\n  [%s].\n\n",
+					strings.Join(argNames, " | "), strings.Join(all, ";\n   "))
 			}
 		}
 		// --- the consumer: which texts doCmdCmp hands to diff.Diff
